@@ -31,6 +31,16 @@ def next_rule(rule, crate):
                         src = self.lets[prims._peel(src)["var"]]
                 if src is not None and any(m.get("callee") and strip_generics(m["callee"]["path"]).endswith("::chars") for m in walk(src)):
                     return ("read", n)
+            # a crate-local helper that only looks (`peek_char(self)`): its body reads chars().next() and writes nothing
+            if n["k"] in ("call", "mcall") and n.get("callee"):
+                hb = crate.body(strip_generics(n["callee"]["path"])) or crate.body(n["callee"]["path"])
+                if hb is not None and strip_generics(n["callee"]["path"]).startswith("pest_typed::") and \
+                        not strip_generics(n["callee"]["path"]).startswith(prims.INPUT + "::"):
+                    inner = NextPaths(crate, hb, self.adv)
+                    evs = [inner.write_of(m) for m in walk(hb["value"])]
+                    evs = [e for e in evs if e]
+                    if evs and all(e[0] == "read" for e in evs) and len(evs) == 1:
+                        return ("read", n)
             return None
 
     advancers = {prims.INPUT + "::" + m for m in prims.CONSUMERS} | {"pest_typed::position::Position::skip"}
